@@ -13,6 +13,13 @@
 (*                  to the country of the first block of the address-block   *)
 (*                  table (dumped from the compiled crate, file BLOCKS)      *)
 (*                  that contains the address ("t" and "s" events).          *)
+(*  (4) function_of_address  (implicit in "the lookup ... for every address":*)
+(*                  the result depends on the address alone) the harness      *)
+(*                  repeats every call in descending and in a stride-permuted*)
+(*                  order and aircraft_information in both orders of the     *)
+(*                  sample; an "again" event must report no differing result *)
+(*                  and a "diff" event (the two results of one address) is   *)
+(*                  accepted only if they are equal.                         *)
 (* CONFORMANCE to the allocation schemes (prints DEVIATION, never a verdict):*)
 (*  AddrOf(returned registration) = address -- the forward rule is a left    *)
 (*  inverse of the lookup; AddrOf being a function, all pairs that conform   *)
@@ -91,12 +98,15 @@ Ok(ev, pv) ==
     [] ev.e = "oor" -> ev.out \in {"some", "none"}
     [] ev.e = "s" -> /\ pv = <<>> \/ Less(pv, ev.reg)
                      /\ CountryOK(ev)
+    [] ev.e = "again" -> ev.differing = 0 /\ ev.first_differing = <<>>
+    [] ev.e = "diff" -> ev.first = ev.again
     [] ev.e \in {"begin", "end"} -> TRUE
     [] OTHER -> FALSE
 
 (* which clause of the property a rejected event breaks (for the report)     *)
 Why(ev, pv) ==
-  IF ev.e \notin {"t", "run", "oor", "s", "begin", "end"} THEN "malformed"
+  IF ev.e \in {"again", "diff"} THEN "function_of_address"
+  ELSE IF ev.e \notin {"t", "run", "oor", "s", "begin", "end"} THEN "malformed"
   ELSE IF ev.e \in {"t", "run", "oor"} /\ ev.out \notin {"some", "none"} THEN "total"
   ELSE IF ev.e = "t" /\ Has(ev, "ai") /\ ev.ai.out = "panic" THEN "total"
   ELSE IF ev.e = "run" THEN "malformed"
